@@ -72,6 +72,11 @@ CORR = [rule({"sel": {"f1": "a"}}, name="r1", title="r1"), rule({"sel": {"f2": "
         {"title": "c1", "name": "c1", "correlation": {"type": "temporal", "rules": ["r1", "r2"], "timespan": "5m", "group-by": ["user", "host"], "aliases": {"user": {"r1": "u1", "r2": "u2"}}}},
         {"title": "c2", "correlation": {"type": "event_count", "rules": ["c1"], "timespan": "1h", "group-by": ["host"], "condition": {"gte": 3}}}]
 rec("correlation", lambda: conv(P_MAP, CORR, V.K(correlation={"typing": True})))
+XCORR = [rule({"sel": {"f1": "a"}}, name="ra", title="ra"), rule({"sel": {"f2": "b"}}, name="rb", title="rb"), rule({"sel": {"f3": "c"}}, name="rc", title="rc"),
+         rule({"sel": {"f4": "d"}}, name="rd", title="rd"),
+         {"title": "x1", "correlation": {"type": "temporal", "timespan": "5m", "group-by": ["user"], "condition": "(ra and rb) or (ra and rc) or (rd and rb)"}},
+         {"title": "x2", "correlation": {"type": "temporal_ordered", "rules": ["rc", "ra", "rb"], "timespan": "5m", "condition": "rc and (ra or rb) and not (ra and rc)"}}]
+rec("correlation_extended", lambda: conv(None, XCORR, V.K(correlation={"typing": True})))
 rec("error_corr_unknown_keys", lambda: SigmaCollection.from_dicts([{"title": "c", "correlation": {"type": "event_count", "rules": ["x"], "timespan": "5m", "condition": {"gte": 1, "zeta": 1, "alpha": 2, "beta": 3}}}]))
 rec("error_pipeline_unreferenced", lambda: ProcessingPipeline.from_dict({"name": "e", "priority": 1, "transformations": [{"type": "field_name_suffix", "suffix": "x", "rule_conditions": {
     "c_zeta": {"type": "is_sigma_rule"}, "c_alpha": {"type": "is_sigma_rule"}, "c_beta": {"type": "is_sigma_rule"}, "used": {"type": "is_sigma_rule"}}, "rule_cond_expr": "used"}]}))
@@ -93,7 +98,7 @@ def validators():
 rec("validators", validators)
 
 # probe of set iteration orders realised by this hash seed (coverage measurement, not judged)
-probe_sets = {"kw3": ["zeta", "alpha", "beta"], "ids3": ["c_zeta", "c_alpha", "c_beta"], "g3": ["g1", "g2", "g3"], "flags3": ["i", "m", "s"], "h2": ["h1", "h2"]}
+probe_sets = {"refs3": ["ra", "rb", "rc"], "kw3": ["zeta", "alpha", "beta"], "ids3": ["c_zeta", "c_alpha", "c_beta"], "g3": ["g1", "g2", "g3"], "flags3": ["i", "m", "s"], "h2": ["h1", "h2"]}
 orders = {k: list(set(v)) for k, v in probe_sets.items()}
 leak = sorted(set(re.findall(r"_(?:cond|filt)_[a-z]{10}", json.dumps(out, default=repr))))
 print(json.dumps({"out": out, "orders": orders, "leak": leak}, default=repr, sort_keys=True))
